@@ -27,6 +27,7 @@ let rec err_class (e : err) : string =
   | ECtx -> "canceled"
   | EUnexpected -> "err:other"
   | EScan -> "err:other"
+  | EOpen -> "err:other"
   | EPanic -> "panic"
   | ENoAmmoText -> "err:other"
   | ELoad e' -> (match err_class e' with "panic" -> "panic" | c -> c)  (* %w keeps errors.Is *)
@@ -121,6 +122,18 @@ let predict (c : string) (obs : string) : string * string * bool =
   | ["chosen"; kind; pre; lim; pas; n; cons; cancel; eof; fs; mask] ->
       let chosen = if mask = "-" then [] else List.map int_of_string (String.split_on_char ',' mask) in
       predict_cell ~chosen kind pre lim pas n cons cancel [eof; fs] None obs
+  | ["nofile"; kind; lim; pas; _cons; c; _fs] ->
+      (* Model/ProviderFrame.v: the source does not open *)
+      let cf = { limit = nat_of_int (int_of_string lim); passes = nat_of_int (int_of_string pas); chosen = [] } in
+      let es = [ { e_tag = O; e_id = O } ] in
+      let r = run_framed (kind_of kind false) false cf es (if c = "pre" then Some O else None) (nat_of_int 100) in
+      let pred = Printf.sprintf "%d %s %s %s" (List.length r.delivered) (seq_string (List.map int_of_nat (ids r.delivered)))
+          (if r.closed then "closed" else "blocked") (out_class r.out) in
+      let ocount, oafter, orun =
+        (match split_blank obs with [a; _; c; d] -> (int_of_string a, c, d) | _ -> (1, "?", "?")) in
+      (* no ammo source: outside C08's quantifier; nothing delivered, consumers released, Run returns *)
+      let ok = spec_b cf.limit cf.passes [] None true [] (oafter = "closed") (runclass_of orun) in
+      (pred, verdict (ocount = 0 && ok) "want nothing delivered, consumers released, Run returns", false)
   | ["dec"; kind; lim; pas; n; _eof] ->
       let n = int_of_string n and lim = int_of_string lim and pas = int_of_string pas in
       let es = List.init n (fun i -> { e_tag = nat_of_int i; e_id = nat_of_int i }) in
